@@ -204,3 +204,13 @@ def _np_concatenate(ex, st, args, kwargs, node, ev):
         expr = sel if expr is None else z3.If(k < start + Z(p.n), sel, expr)
     content = z3.Lambda([k], expr)
     return st.new_root(simp(total), content, st.heap[parts[0].root].dtype, "fresh", "cat")
+
+
+def elementwise(st, fn, *operands, name="ew", dtype="float64"):
+    """fresh array whose element k is fn(operand values at k); array operands must have equal lengths (checked by the caller),
+    scalars are broadcast"""
+    arrs = [o for o in operands if isinstance(o, Arr)]
+    n = arrs[0].n
+    k = z3.Int("k!%d" % next(symex._fresh))
+    vals = [z3.Select(st.heap[o.root].content, o.idx(k)) if isinstance(o, Arr) else to_real(o) for o in operands]
+    return st.new_root(n, z3.Lambda([k], fn(*vals)), dtype, "fresh", name)
